@@ -97,7 +97,7 @@ ASSUMPTIONS = [
 
 MASK = fedjax.EXAMPLE_MASK_KEY
 
-DTYPES = ['int8', 'int32', 'int64', 'float32', 'float64', 'bool']
+DTYPES = ['int8', 'int32', 'int64', 'float32', 'float64', 'bool', 'bytes']
 TRAILS = [[], [2], [2, 3], [0]]
 PREPS = ['derive', 'cast', 'drop', 'scale']
 ITER_KINDS = ['list', 'tuple', 'generator', 'iterator']
@@ -111,6 +111,11 @@ def make_feature(ids, dtype, trail, salt):
   shape = (n,) + tuple(trail)
   size = int(np.prod(trail)) if trail else 1
   base = np.asarray(ids, dtype=np.int64).reshape((n,) + (1,) * len(trail))
+  if dtype == 'bytes':
+    # fixed-width byte strings whose width follows the values: clients holding
+    # ids of different magnitudes hold the feature as S2, S3, S4, ...
+    tok = np.asarray([b'r%d' % (int(i) + salt) for i in np.asarray(ids).reshape(-1)] or [b''])[:n]
+    return np.broadcast_to(tok.reshape((n,) + (1,) * len(trail)), shape).copy()
   if dtype == 'bool':
     return np.broadcast_to((base + salt) % 2 == 0, shape).copy()
   if dtype == 'int8':
@@ -225,9 +230,16 @@ def raws_digest(raws):
 
 def same_array(a, b):
   a, b = np.asarray(a), np.asarray(b)
+  if a.dtype.kind == 'S' and b.dtype.kind == 'S':
+    # byte strings: the width is whatever the pieces at hand needed
+    return a.shape == b.shape and a.tolist() == b.tolist()
   if a.dtype != b.dtype or a.shape != b.shape:
     return False
   return bool(np.array_equal(a, b))
+
+
+def same_dtype(a, b):
+  return a == b or (a.kind == 'S' and b.kind == 'S')
 
 
 def ref_final_size(r, b, k):
@@ -282,7 +294,7 @@ def check_padded_stream(case, batches, total):
       v = np.asarray(batch[f])
       require(v.shape[0] == size, 'padded:inconsistent_rows',
               f'{f}: {v.shape} vs {size}')
-      require(v.dtype == ref[f].dtype and v.shape[1:] == ref[f].shape[1:],
+      require(same_dtype(v.dtype, ref[f].dtype) and v.shape[1:] == ref[f].shape[1:],
               'padded:dtype_or_trailing_shape_changed',
               f'{f}: {v.dtype}{v.shape} vs {ref[f].dtype}{ref[f].shape}')
       want_rows = ref[f][pos:pos + real]
@@ -476,7 +488,7 @@ def rows_are_genuine(case, batch, clause_prefix):
           f'{sorted(batch)} vs {sorted(ref)}')
   for f in ref:
     v = np.asarray(batch[f])
-    require(v.dtype == ref[f].dtype and v.shape == ref[f].shape,
+    require(same_dtype(v.dtype, ref[f].dtype) and v.shape == ref[f].shape,
             f'{clause_prefix}:dtype_or_shape_changed',
             f'{f}: {v.dtype}{v.shape} vs {ref[f].dtype}{ref[f].shape}')
     require(same_array(v, ref[f]), f'{clause_prefix}:row_content_differs',
